@@ -213,9 +213,33 @@ func newIDs(n int) []*big.Int {
 
 // EdResharing: old committee = indices `old` of a generated (n,t) key; new committee (n2,t2) with fresh ids.
 func EdResharing(n, t int, old []int, n2, t2 int, seed int64) protomc.Scenario {
-	all := EdKey("small", n, t, seed)
-	sc := protomc.Scenario{Name: fmt.Sprintf("eddsa-resharing/old=(%d,%d)%v,new=(%d,%d)", n, t, old, n2, t2)}
-	sc.Cfg = netrun.Config{Proto: netrun.EddsaResharing, Threshold: t, OldN: n, NewKeys: newIDs(n2), NewThreshold: t2, Seed: seed, Label: fmt.Sprint(old)}
+	return EdResharingP("small", "", n, t, old, n2, t2, seed)
+}
+
+// newIDsP: ids of the new committee in a named pattern ("" = 101, 102, ...).
+func newIDsP(pattern string, n int, c *ref.Curve) []*big.Int {
+	if pattern == "" {
+		return newIDs(n)
+	}
+	ks := KeySet(pattern, n, c)
+	for i := range ks {
+		ks[i] = new(big.Int).Add(ks[i], big.NewInt(100)) // keep clear of the old committee's values of the same pattern
+	}
+	return ks
+}
+
+func patName(oldPat, newPat string) string {
+	if oldPat == "small" && newPat == "" {
+		return ""
+	}
+	return fmt.Sprintf(",ids=%s->%s", oldPat, newPat)
+}
+
+// EdResharingP: the same with id patterns for the old key and the new committee.
+func EdResharingP(oldPat, newPat string, n, t int, old []int, n2, t2 int, seed int64) protomc.Scenario {
+	all := EdKey(oldPat, n, t, seed)
+	sc := protomc.Scenario{Name: fmt.Sprintf("eddsa-resharing/old=(%d,%d)%v,new=(%d,%d)%s", n, t, old, n2, t2, patName(oldPat, newPat))}
+	sc.Cfg = netrun.Config{Proto: netrun.EddsaResharing, Threshold: t, OldN: n, NewKeys: newIDsP(newPat, n2, ref.Ed25519), NewThreshold: t2, Seed: seed, Label: fmt.Sprint(old)}
 	base := sc.Cfg
 	_ = base
 	keys := make([]edkg.LocalPartySaveData, len(old))
@@ -227,14 +251,18 @@ func EdResharing(n, t int, old []int, n2, t2 int, seed int64) protomc.Scenario {
 }
 
 func EcResharing(n, t int, old []int, n2, t2 int, seed int64, noProofs bool) protomc.Scenario {
-	all := EcKey("small", n, t, seed)
-	sc := protomc.Scenario{Name: fmt.Sprintf("ecdsa-resharing/old=(%d,%d)%v,new=(%d,%d),proofs=%v", n, t, old, n2, t2, !noProofs)}
+	return EcResharingP("small", "", n, t, old, n2, t2, seed, noProofs)
+}
+
+func EcResharingP(oldPat, newPat string, n, t int, old []int, n2, t2 int, seed int64, noProofs bool) protomc.Scenario {
+	all := EcKey(oldPat, n, t, seed)
+	sc := protomc.Scenario{Name: fmt.Sprintf("ecdsa-resharing/old=(%d,%d)%v,new=(%d,%d),proofs=%v%s", n, t, old, n2, t2, !noProofs, patName(oldPat, newPat))}
 	keys := make([]eckg.LocalPartySaveData, len(old))
 	for i, s := range old {
 		keys[i] = all[s]
 	}
 	pp := fix.PreParams()
-	sc.Cfg = netrun.Config{Proto: netrun.EcdsaResharing, EcKeys: keys, Threshold: t, OldN: n, NewKeys: newIDs(n2), NewThreshold: t2, Seed: seed, Label: fmt.Sprint(old),
+	sc.Cfg = netrun.Config{Proto: netrun.EcdsaResharing, EcKeys: keys, Threshold: t, OldN: n, NewKeys: newIDsP(newPat, n2, ref.Secp256k1), NewThreshold: t2, Seed: seed, Label: fmt.Sprint(old),
 		PreParams: pp[len(pp)-n2:], NoProofMod: noProofs, NoProofFac: noProofs}
 	return sc
 }
